@@ -30,6 +30,9 @@ type Script struct {
 	End    EndMode `json:"end,omitempty"`
 	// FailWriteFrom: the j-th Write call (1-based) and all later ones fail; 0 = never.
 	FailWriteFrom int `json:"fail_write_from,omitempty"`
+	// CloseErr: the first Close closes the transport but reports an error, as a TLS
+	// connection does when its peer is gone and the close notification cannot be sent.
+	CloseErr bool `json:"close_err,omitempty"`
 }
 
 // Conn is a scripted net.Conn. It is used by exactly one goroutine.
@@ -136,6 +139,9 @@ func (c *Conn) Close() error {
 	c.Closes++
 	if c.Closes == 1 {
 		c.ClosedAt = len(c.Out)
+		if c.S.CloseErr {
+			return errors.New("tls: failed to send closeNotify alert (but connection was closed anyway): write: broken pipe")
+		}
 		return nil
 	}
 	return ErrClosed
